@@ -153,3 +153,31 @@ Print Assumptions C05_reset_rollover_fields_spec.
 Theorem C05_incr_numeric_spec : forall (raw : list N) (fields : list (list N)) (old cur : vinfo) (fl : flags) (r : vinfo), parse_pattern_fields raw = Some fields -> incr_numeric raw old cur fl = Some r -> exists c : vinfo, bumped cur fl = Some c /\ (forall f : list N, In f resettable -> get_field r f = (if existsb (eqb_str f) (after_first_changed old c fields) then Some (Some (FInt match assoc f Tables.V2_FIELD_INITIAL_VALUES with | Some i => zundec i | None => 0 end)) else get_field c f)) /\ (forall f : list N, ~ In f resettable -> get_field r f = get_field c f).
 Proof. exact incr_numeric_spec. Qed.
 Print Assumptions C05_incr_numeric_spec.
+
+(* ---- Proofs.SemverE2E ---- *)
+From Coq Require Import List Bool NArith ZArith Arith.
+From BV Require Import Lib.PyStr Lib.Decimal Model.V2 Model.Pep440 Model.Cli Proofs.DottedFacts Proofs.SemverE2E.
+Import ListNotations.
+(* semver_incr :
+   forall (today date : Z) (fl : flags) (ma mi pa : N), only_part_flags fl -> f_major fl || f_minor fl || f_patch fl = true -> incr today (dotted [ma; mi; pa]) P fl date = INew (dotted (semver_next fl ma mi pa)) *)
+Theorem C05_semver_incr : ltac:(let t := type of semver_incr in exact t).
+Proof. exact semver_incr. Qed.
+Print Assumptions C05_semver_incr.
+
+(* semver_incr_noflag :
+   forall (today date : Z) (fl : flags) (ma mi pa : N), only_part_flags fl -> f_major fl = false -> f_minor fl = false -> f_patch fl = false -> incr today (dotted [ma; mi; pa]) P fl date = INone *)
+Theorem C05_semver_incr_noflag : ltac:(let t := type of semver_incr_noflag in exact t).
+Proof. exact semver_incr_noflag. Qed.
+Print Assumptions C05_semver_incr_noflag.
+
+(* semver_format_gen :
+   forall v : vinfo, format_version v P = Some (dotted [Z.to_N (v_major v); Z.to_N (v_minor v); Z.to_N (v_patch v)]) *)
+Theorem C05_semver_format_gen : ltac:(let t := type of semver_format_gen in exact t).
+Proof. exact semver_format_gen. Qed.
+Print Assumptions C05_semver_format_gen.
+
+(* semver_parse :
+   forall (today : Z) (ma mi pa : N), exists v : vinfo, parse_version_info today (dotted [ma; mi; pa]) P = POk v /\ v_major v = Z.of_N ma /\ v_minor v = Z.of_N mi /\ v_patch v = Z.of_N pa /\ v_tag v = s_final /\ v_pytag v = [] /\ v_num v = 0%Z /\ v_bid v = [49%N; 48%N; 48%N; 48%N] /\ cal_list v = cinfo_of_ord today *)
+Theorem C05_semver_parse : ltac:(let t := type of semver_parse in exact t).
+Proof. exact semver_parse. Qed.
+Print Assumptions C05_semver_parse.
